@@ -70,6 +70,21 @@ contract(F, "TypeNormalizer._unfold_union_args", props=["C15"], params={"self": 
          ])},
          scenarios=_unfold_scenarios, cover=["returned"])
 
+# The same function under a second, separate contract (its own invariant: keeping the two arguments apart keeps each solver query
+# small — with the identity invariant added to the three above, `inv-preserve/1` of the `extend` path went `unknown` in z3 and cvc5):
+# a union without nested unions is left exactly as it is — same members, same order.
+contract(F, "TypeNormalizer._unfold_union_args", name=F + ":TypeNormalizer._unfold_union_args[identity]", props=["C15"],
+         params={"self": ("const", None), "norm_args": "sym"}, consts={"Union": __import__("typing").Union},
+         post={
+             "no-nested-identity": ("implies(returned and forall(lambda i: implies(0 <= i and i < len(norm_args), not " + IS_U.format(i="i") + ")), "
+                                    "len(result) == len(norm_args) and forall(lambda k: implies(0 <= k and k < len(norm_args), result[k] is norm_args[k])))"),
+         },
+         loops={0: LoopSpec(inv=[
+             "exists(lambda i: 0 <= i and i < _i and " + IS_U.format(i="i") + ") or (len(result) == _i and "
+             "forall(lambda k: implies(0 <= k and k < _i, result[k] is norm_args[k])))",
+         ])},
+         scenarios=_unfold_scenarios, cover=["returned"])
+
 
 # ---- Union normalisation, step 3: all Literal members are merged into ONE Literal member placed last; every other member is kept,
 # in order (C15: "literal unions merged or split").  `_create_norm_literal` is abstracted here (typed de-duplication: `_dedup` above
